@@ -135,6 +135,15 @@ def check(ctx):
                 out.append(None)
         return out
 
+    def mask_relations(m, depth=0):
+        if m is None or depth > 4:
+            return [None]
+        if m.bin is not None and m.bin[0] == '&':
+            return mask_relations(m.bin[1], depth + 1) + mask_relations(m.bin[2], depth + 1)
+        if m.cmp is not None and m.cmp[0] in ('<', '<=', '>', '>='):
+            return [(m.cmp[1], m.cmp[0], m.cmp[2])]
+        return [None]
+
     def is_thr(v):
         return v is not None and bool(v.is_param and v.is_param.endswith(':max_energy_threshold') or (v.deps and any(d.endswith('.max_energy_threshold') for d in v.deps) and v.geo is None))
 
@@ -154,9 +163,24 @@ def check(ctx):
         nid = cfg.node_of(call)
         if nid is not None:
             conds += list(cfg.guards(nid))
+        if not conds:
+            # the nodes come out of a generator helper: the guards of its yield admit them
+            for y in itg.events:
+                if y['tag'] == 'yield' and y['where'] is not None and under(FEG)(y) and y['where'].qualname != FEG:
+                    yv = y['value']
+                    first = yv.elts[0] if (yv is not None and yv.ty == 'tuple' and yv.elts) else yv
+                    if first is not None and first.voxel:
+                        ycfg = ctx.cfg(y['where'].qualname)
+                        yid = ycfg.node_of(y['node'])
+                        if yid is not None:
+                            conds += list(ycfg.guards(yid))
         rels = []
         for t, p in conds:
             rels += relations(t, p)
+        key = e.get('key')
+        if not rels and key is not None and key.selected_by is not None:
+            # the nodes are the positions a boolean mask selects: relations of the mask (conjunction of comparisons)
+            rels = mask_relations(key.selected_by)
         lower = upper = None
         opaque = any(r is None for r in rels)
         for r in rels:
